@@ -107,14 +107,21 @@ def check_generators(ctx):
                 return None
             loops = chain(f.node.body, []) or []
             src = f.params[0]
+            outer_iter = loops[0].iter if loops else None
+            outer_elem = loops[0].target if loops else None
+            if isinstance(outer_iter, ast.Call) and call_name(outer_iter) == 'enumerate' and len(outer_iter.args) == 1 \
+                    and isinstance(outer_elem, ast.Tuple) and len(outer_elem.elts) == 2:
+                outer_iter = outer_iter.args[0]
+                outer_elem = outer_elem.elts[1]
             if ok:
-                ok = len(loops) >= 2 and isinstance(loops[0].iter, ast.Name) and loops[0].iter.id == src
+                ok = len(loops) >= 2 and isinstance(outer_iter, ast.Name) and outer_iter.id == src
                 why = 'the frequency count does not loop over every entry of `%s` (outer loop: %s)' % (
                     src, U(loops[0].iter) if loops else 'none')
             if ok and qual.endswith('tables'):
                 tok_loop = loops[-1]
                 it = view.expand(tok_loop.iter, tok_loop)
-                tab, row = loops[0].target.id, loops[1].target.id if len(loops) > 1 else None
+                tab = outer_elem.id if isinstance(outer_elem, ast.Name) else None
+                row = loops[1].target.id if len(loops) > 1 and isinstance(loops[1].target, ast.Name) else None
                 ok = len(loops) == 3 and isinstance(loops[1].iter, ast.Name) and loops[1].iter.id == tab \
                     and isinstance(it, ast.Call) and call_name(it) == 'tokenize' and len(it.args) == 1 \
                     and isinstance(it.args[0], ast.Subscript) and U(it.args[0].value) == row \
